@@ -70,6 +70,23 @@ CHECKS = {
              "with 1e-9 relative tolerance; environments ill-typed for a tree (reference raises "
              "TypeError) are skipped; the per-path fragment boundaries are tabulated in the "
              "check (EXPECTED_REFUSALS)."),
+    "C14": dict(
+        category="model_checking", design="DESIGN.md 4/C14",
+        technique="bounded-exhaustive enumeration of C-expressible trees, each compiled by gcc "
+                  "and run on the whole environment box, plus explicit-state exploration of all "
+                  "map/copy histories on one CCodeMapper with invariants after every transition",
+        text="Engine A: every shape of the integer and the floating C fragment with every leaf "
+             "combination, every (parent, position, child) nesting and three-level chains; the "
+             "emitted text plus its hoisted assignments is compiled with gcc and run on every "
+             "in-range environment, against the reference semantics. Engine B: all histories up "
+             "to depth 3 (quick) / 4 (thorough; 11110 histories) over {map one of 8 expressions "
+             "with shared / fresh / nested / equally prefixed wrappers, copy(), "
+             "copy_with_mapped_cses()}: after every transition the name list is checked (unique "
+             "names, assignment before use, one assignment per distinct wrapped child), and the "
+             "program of every maximal history is compiled and run.",
+        note="Trusted: gcc -O0 -fwrapv as C semantics, vf/refsem.py with range guards. The "
+             "fragment typing (pow() is a double, integer-only operators) is decided by the "
+             "check. States are deduplicated only for reporting; every history is executed."),
 }
 
 NOT_BUILT_REASON = "check not built yet in this revision (planned, see DESIGN.md section 4)"
